@@ -146,6 +146,10 @@ func parseGenDecl(fset *token.FileSet, pkg *types.Package, decl *ast.GenDecl) ([
 		if !ok {
 			return nil, fmt.Errorf("%s may only be applied to type declarations ", converterMarker)
 		}
+		// in `type ( ... )` the type itself may have a doc comment, too
+		if specDocs := parse.CommentToString(typeSpec.Doc); specDocs != "" {
+			declDocs = declDocs + "\n" + specDocs
+		}
 		c, err := parseInterface(fset, pkg, typeSpec, declDocs)
 		if err != nil {
 			return nil, err
@@ -156,12 +160,28 @@ func parseGenDecl(fset *token.FileSet, pkg *types.Package, decl *ast.GenDecl) ([
 	var converters []config.RawConverter
 
 	for _, spec := range decl.Specs {
-		if typeSpec, ok := spec.(*ast.TypeSpec); ok && strings.Contains(parse.CommentToString(typeSpec.Doc), converterMarker) {
-			c, err := parseInterface(fset, pkg, typeSpec, parse.CommentToString(typeSpec.Doc))
-			if err != nil {
-				return nil, err
+		switch spec := spec.(type) {
+		case *ast.TypeSpec:
+			specDocs := parse.CommentToString(spec.Doc)
+			if strings.Contains(specDocs, variablesMarker) {
+				return nil, fmt.Errorf("%s must be defined on %q-block but was %q", variablesMarker, token.VAR, decl.Tok.String())
 			}
-			converters = append(converters, c)
+			if strings.Contains(specDocs, converterMarker) {
+				c, err := parseInterface(fset, pkg, spec, specDocs)
+				if err != nil {
+					return nil, err
+				}
+				converters = append(converters, c)
+			}
+		case *ast.ValueSpec:
+			// a marker on one variable or constant of a block is not a declaration goverter can use
+			specDocs := parse.CommentToString(spec.Doc)
+			if strings.Contains(specDocs, converterMarker) {
+				return nil, fmt.Errorf("%s must be defined on %q-block but was %q", converterMarker, token.TYPE, decl.Tok.String())
+			}
+			if strings.Contains(specDocs, variablesMarker) {
+				return nil, fmt.Errorf("%s must be defined on the %q-block, not on a single declaration inside of it", variablesMarker, token.VAR)
+			}
 		}
 	}
 
